@@ -173,7 +173,7 @@ func init() {
 
 	registerProp(&propDef{ID: "C19", Rules: func(c *Ctx) {
 		c.ruleExcerpt()
-	}, Explanation: "Partial. Decided: an excerpt line is lines[i] of the diagnostic's file stored together with the number i+1; the window is filled by a +1 counting loop that is left only at its head (neighbouring lines) and, whenever the file has the reported line, contains it; an empty excerpt is returned only for an unreadable file or a missing line; the formatter prints beside each line its own number, shows truncateString(line, limit, column) and writes the caret line exactly under the line whose number is the diagnostic's line, computed from the same line, limit and column; every result of truncateString is at most limit + 6 bytes long (linear arithmetic over the dominating conditions of each return). NOT decided: that the caret column computed by calculateDisplayColumn stands under the reported character after truncation and with tabs (a relation between the arithmetic of two functions over all lengths and columns); failure-freedom is C10's."})
+	}, Explanation: "Window: an excerpt line is lines[i] of the diagnostic's file stored with the number i+1; filled by a +1 counting loop left only at its head (also over a sub-slice); contains the reported line whenever the file has it; empty only for an unreadable file or a missing line. Formatter: prints each line with its own number, shows truncateString(line, limit, column), writes the caret line exactly under the line numbered like the diagnostic. Truncation: every result is at most limit + 6 bytes long and keeps the reported character (VISIBLE: lo <= column-1 < hi). Caret: for every jointly satisfiable pair of returns of calculateDisplayColumn and truncateString the display column is len(markers before) + column - lo (CARET-COLUMN); the caret line has the margin of the text line (MARGIN, WIDEST), displayColumn-1 single-byte paddings repeating the tabs of the shown text (COUNT, ONE-PER-STEP, TAB), then the caret, on the same builder (SINK, CARET). All arithmetic: Fourier-Motzkin over the conditions dominating each return, joins and classification helpers as case splits. Not decided: multi-byte characters (columns are bytes); failure-freedom is C10's."})
 	registerProp(&propDef{ID: "C18", Rules: func(c *Ctx) {
 		c.ruleFlagTable()
 		c.ruleParseHelpers()
@@ -182,6 +182,10 @@ func init() {
 		// "... and that the resolved value is what the analyzers actually use": how the resolved ScanTests and
 		// ExcludePaths are consumed
 		c.ruleSkipShape()
+		// ... by every reader and checker: the files are filtered with the configuration of the config analyzer
+		// (which each of them requires), not with one resolved some other way
+		c.ruleCfgSrc()
+		c.only([]string{"REQ-RESULT/REQUIRES|<-ConfigReader"}, func() { c.ruleReqResult() })
 	}, Explanation: "Flags defined = flags read = documented flags; each flag's default is the environment-derived value (flag > env > default by construction of package flag); FromEnv reads exactly the documented variables, lists through os.LookupEnv (set-but-empty honoured) with the documented defaults, the bool through parseBool on a non-empty value; parseStringList = split on commas, trim, drop empty, upper-case iff requested (requested for check codes on both paths); parseBool = strconv.ParseBool(lower(trim)) else yes/on; the analyzer owning the flags is named config and parses &pass.Analyzer.Flags once; the configuration cone has no reachable panic site; the resolved ScanTests / ExcludePaths are consumed by ShouldSkipFile as (name contains an exclude-paths entry) or (!ScanTests and *_test.go), each option independently of the other."})
 }
 
@@ -266,23 +270,33 @@ func init() {
 		c.ruleGateBeforeDedup("testonly", "packageonly")
 		c.rulePosCompare()
 		c.ruleReaderState()
-		c.only([]string{"RECEIVER-BY-OBJECT", "CALLEE-BY-OBJECT", "CTOR-EXEMPTION", "DEDUP", "FLOOR"}, func() {
+		c.only([]string{"RECEIVER-BY-OBJECT", "CALLEE-BY-OBJECT", "FUNCS-INDEX", "CTOR-EXEMPTION", "DEDUP", "FLOOR"}, func() {
 			c.ruleSitesIMM()
 			c.ruleSitesCTOR()
 			c.ruleSitesTONL()
 			c.ruleSitesPKGO()
 		})
+		// reordering declarations / moving them between files: the last declaration of a file is like any other, and
+		// which files are analysed does not depend on the order of the files
+		c.only([]string{"SCOPE/INLINE-LAST-DECL"}, func() { c.scopeInline() })
+		c.only([]string{"ONE-FILTER/ALL-FILES"}, func() { c.ruleOneFilter() })
 		c.ruleAttach("@immutable", "@testonly", "@mutable", "@implements", "@constructor", "@packageonly")
 		// moving a declaration to another file / inserting an ordinary comment: qualifiers are resolved against
 		// the imports of the annotation's own file only, and the node after a stand-alone @ignore is the first
 		// node, not a comment group attached to it
 		c.only([]string{"IMPORTS-PER-FILE"}, func() { c.ruleQueries() })
 		c.only([]string{"SCOPE-END/FIRST-NODE"}, func() { c.scopeNextNode() })
+		// gofmt sorts the specs of an import block: which import a qualifier names must not depend on their order
+		c.only([]string{"=RESOLVE-ORDER"}, func() { c.ruleImportResolution() })
 	}, Explanation: "Nothing a walk callback (or what it calls) writes outlives the visit of one node except append-only accumulators and per-file dedup maps created inside the file loop; context fields read during a walk are re-assigned on every path of each iteration before the walk; walk roots are all top-level declarations / whole filtered files with no filter in between; no pruning except the @testonly FuncDecl prune decided on the declaration's own name; ordered position comparisons and line/column numbers occur only in scope computation and rendering; readers carry no state between declarations (doc selection per spec); identity is by object (receiver, direct callee), not by spelling."})
 	registerProp(&propDef{ID: "C13", Rules: func(c *Ctx) {
 		c.ruleAliasAll()
 		c.ruleTypeInfoHelpers()
 		c.ruleNoSyntacticType()
+		// whether a type is in an index does not depend on how its name is spelled (exported or not)
+		c.only([]string{"INDEX-SRC/UNIFORM"}, func() {
+			c.ruleIndexSrc()
+		})
 		// no file or declaration is skipped on the strength of how it spells things (its import list, its syntax)
 		c.ruleWalkRoot("immutable", "constructor", "testonly", "packageonly")
 		c.only([]string{"TYPE-RESOLVE", "ALIAS-RESOLVED", "PACKAGE-LEVEL", "NOT-POINTER", "IMMUTABLE-INDEX", "CONSTRUCTOR-INDEX", "TYPES-INDEX", "METHODS-INDEX", "FLOOR"}, func() {
